@@ -75,7 +75,31 @@ func inContract(text string, ed edit) bool {
 	}
 	_, m1 := locate(text, ed.S)
 	_, m2 := locate(text, ed.E)
-	return !m1 && !m2
+	return !m1 && !m2 && !beyondCR(text, ed.S) && !beyondCR(text, ed.E)
+}
+
+// beyondCR reports that p addresses a column behind the content of a line that ends in CR LF.  The protocol counts
+// "\r\n" as one line terminator and clamps such a column to the line's length; whether an implementation lands in front
+// of or behind the '\r' is not something the mirror clause can decide, so these positions are never asserted.
+func beyondCR(text string, p pos) bool {
+	o := 0
+	for l := 0; l < p.L; l++ {
+		i := strings.IndexByte(text[o:], '\n')
+		if i < 0 {
+			return false
+		}
+		o += i + 1
+	}
+	line := text[o:]
+	if i := strings.IndexByte(line, '\n'); i >= 0 {
+		line = line[:i]
+	} else {
+		return false // last line: a trailing '\r' is content
+	}
+	if !strings.HasSuffix(line, "\r") {
+		return false
+	}
+	return p.C > utf16Len(line[:len(line)-1])
 }
 
 // apply returns the text after an in-contract edit.
